@@ -44,6 +44,17 @@ def _worker(item):
         signal.alarm(opts['cfg_timeout'])
         try:
             rec = runner.check_config(prop, cfg, ctx, validate=opts.get('validate', True), want_smt2=opts.get('want_smt2', 0))
+            if rec.get('divergences') and not rec.get('violations'):
+                # a lifted/real disagreement must be reproducible to count: re-run the configuration once in a fresh context
+                first = rec['divergences']
+                try:
+                    ctx.close()
+                except Exception:
+                    pass
+                _CTX[key] = ctx = runner.Ctx(repo=opts['repo'], mutate=mutate, timeout_ms=opts['timeout_ms'], max_paths=opts['max_paths'])
+                rec = runner.check_config(prop, cfg, ctx, validate=opts.get('validate', True), want_smt2=opts.get('want_smt2', 0))
+                if not rec.get('divergences'):
+                    rec['transient_divergences'] = first[:3]
         finally:
             signal.alarm(0)
             if cov:
@@ -128,6 +139,14 @@ def main(argv):
     jobs = int(os.environ.get('SX_JOBS', '0') or 0) or min(16, os.cpu_count() or 1)
     t0 = time.time()
     cfgs = prop.configs(tier, seed)
+    if getattr(prop, 'AGEABLE', False):
+        # every fourth configuration builds its operands as objects with a past (props/common.py, AGE)
+        import random as _random
+        from props import common as _common
+        _rng = _random.Random(seed * 7919 + 13)
+        for i, c in enumerate(cfgs):
+            if i % 4 == 1 and 'age' not in c:
+                c['age'] = _rng.choice(_common.AGE_ROUTES)
     limit = int(os.environ.get('SX_LIMIT', '0') or 0)
     if limit:
         cfgs = cfgs[:limit]
@@ -278,6 +297,7 @@ def finish(pid, prop, tier, seed, repo, results, canaries, wall):
             paths_not_encoded=len(not_encoded), not_encoded_samples=not_encoded[:5], violating_only_outside_doubles=tot('overapprox_only'),
             solver_queries=tot('solver_queries'), solver_seconds=round(sum(r.get('solver_s', 0) for r in main_r), 2),
             witness_validation_skipped=tot('validation_skipped'),
+            transient_divergences=[d for r in main_r for d in r.get('transient_divergences', [])][:5],
             functions_encoded=dict(declared=getattr(prop, 'ENCODED', []), executed_symbolically=covered, file_sha256=loader.file_hashes(repo)),
             bounds=auto_bounds(prop, [r['cfg'] for r in main_r]),
             crosscheck=cross, canary=can_report, known_findings_hit=sorted(known), exhaustive=False,
